@@ -25,7 +25,8 @@ Definition ctl_ok (nl : Z) (v : vstate) (op : opcode) : bool :=
   | OEnd | OElse => true
   | OBlock None => match v_unreach v with None => (v_opds v =? 0)%nat | Some _ => false end
   | OIf None => match v_unreach v with None => (v_opds v =? 1)%nat | Some _ => false end
-  | OBasic (BBr _) | OBasic (BBrIf _) => match v_unreach v with None => true | Some _ => false end
+  | OLoop None => match v_unreach v with None => (v_opds v =? 0)%nat | Some _ => false end
+  | OBasic (BBr _) | OBasic (BBrIf _) | OBasic BUnreachable => match v_unreach v with None => true | Some _ => false end
   | OBasic b => match v_unreach v with None => straight_ok b && locals_in nl b | Some _ => false end
   | _ => false
   end.
@@ -135,6 +136,8 @@ Lemma flatten_basics bs : flatten (map Basic bs) = map OBasic bs.
 Proof. induction bs; cbn; auto. f_equal. exact IHbs. Qed.
 Lemma flatten_block bt body rest : flatten (Block bt body :: rest) = OBlock bt :: flatten body ++ OEnd :: flatten rest.
 Proof. unfold flatten. cbn [flat_map flatten_instr]. cbn [app]. rewrite <- app_assoc. reflexivity. Qed.
+Lemma flatten_loop bt body rest : flatten (Loop bt body :: rest) = OLoop bt :: flatten body ++ OEnd :: flatten rest.
+Proof. unfold flatten. cbn [flat_map flatten_instr]. cbn [app]. rewrite <- app_assoc. reflexivity. Qed.
 Lemma flatten_if1 bt thn rest : flatten (If bt thn [] :: rest) = OIf bt :: flatten thn ++ OEnd :: flatten rest.
 Proof. unfold flatten. cbn [flat_map flatten_instr]. cbn [app]. rewrite <- app_assoc. reflexivity. Qed.
 Lemma flatten_if2 bt thn e els rest :
@@ -176,7 +179,7 @@ Proof.
     cbn [lvl] in H; try (apply andb_true_iff in H; destruct H as [H _]; unfold ctl_ok in H; rewrite E in H).
   - destruct b; discriminate.
   - destruct bt; discriminate.
-  - unfold flatten in H. cbn [flat_map flatten_instr app lvl ctl_ok] in H. discriminate.
+  - destruct bt; discriminate.
   - destruct bt; discriminate.
   - destruct bt; discriminate.
 Qed.
@@ -224,15 +227,28 @@ Proof.
       destruct (compile_cons _ _ _ _ _ _ _ Hc) as (v1 & s1 & Ev & Eh & Hc').
       rewrite (reach_of_none v Hu) in Eh. destruct (lvl_cons _ _ _ _ _ _ Hl Ev) as [Hk Hl'].
       destruct b; try (unfold ctl_ok in Hk; rewrite Hu in Hk; rewrite Eb in Hk; discriminate).
-      * (* br *)
-        destruct (op_br nl cx s v v1 s1 l I Hu Ev Eh) as (locs & Enth & O1 & O2 & O3 & O4 & O5 & O6 & I1 & Hu1 & X1).
+      * (* unreachable *)
+        destruct (op_unreachable nl cx s v v1 s1 I Hu Ev Eh) as (O1 & O2 & O3 & O4 & O5 & O6 & I1 & Hu1 & X1).
         rewrite (lvl_unreach_nil nl cx rest v1 Hu1 Hl') in Hc'. cbn in Hc'. inversion Hc'; subst v' s'.
-        constructor; auto. apply mono_eq; auto. rewrite O2. eapply bp_sub_update; eauto. apply (i_frames _ _ _ I).
+        constructor; auto. apply mono_eq; auto. rewrite O2. eapply bp_sub_refl. apply (i_frames _ _ _ I).
+      * (* br *)
+        destruct (br_target _ _ _ _ Ev) as (fk & Ek). destruct (bp_target nl s v l fk I Ek) as [(locs & Enth)|(pos & Enth)].
+        -- destruct (op_br nl cx s v v1 s1 l locs I Hu Enth Ev Eh) as (O1 & O2 & O3 & O4 & O5 & O6 & I1 & Hu1 & X1).
+           rewrite (lvl_unreach_nil nl cx rest v1 Hu1 Hl') in Hc'. cbn in Hc'. inversion Hc'; subst v' s'.
+           constructor; auto. apply mono_eq; auto. rewrite O2. eapply bp_sub_update; eauto. apply (i_frames _ _ _ I).
+        -- destruct (op_br_known nl cx s v v1 s1 l pos I Hu Enth Ev Eh) as (O1 & O2 & O3 & O4 & O5 & O6 & I1 & Hu1 & X1).
+           rewrite (lvl_unreach_nil nl cx rest v1 Hu1 Hl') in Hc'. cbn in Hc'. inversion Hc'; subst v' s'.
+           constructor; auto. apply mono_eq; auto. rewrite O2. eapply bp_sub_refl. apply (i_frames _ _ _ I).
       * (* br_if *)
-        destruct (op_br_if nl cx s v v1 s1 l I Hu Ev Eh) as (p & st & locs & Es & Pp & Enth & O1 & O2 & O3 & O4 & O5 & O6 & I1 & Hu1 & X1).
-        assert (P1 : pres nl s s1 v1).
-        { constructor; auto. apply mono_eq; auto. rewrite O2. eapply bp_sub_update; eauto. apply (i_frames _ _ _ I). }
-        eapply pres_trans; [exact P1|]. eapply (IH rest); eauto. { cbn [lsize isize] in Hn. lia. } left. exact O6.
+        destruct (br_if_target _ _ _ _ Ev) as (fk & Ek). destruct (bp_target nl s v l fk I Ek) as [(locs & Enth)|(pos & Enth)].
+        -- destruct (op_br_if nl cx s v v1 s1 l locs I Hu Enth Ev Eh) as (p & st & Es & Pp & O1 & O2 & O3 & O4 & O5 & O6 & I1 & Hu1 & X1).
+           assert (P1 : pres nl s s1 v1).
+           { constructor; auto. apply mono_eq; auto. rewrite O2. eapply bp_sub_update; eauto. apply (i_frames _ _ _ I). }
+           eapply pres_trans; [exact P1|]. eapply (IH rest); eauto. { cbn [lsize isize] in Hn. lia. } left. exact O6.
+        -- destruct (op_br_if_known nl cx s v v1 s1 l pos I Hu Enth Ev Eh) as (p & st & Es & Pp & O1 & O2 & O3 & O4 & O5 & O6 & I1 & Hu1 & X1).
+           assert (P1 : pres nl s s1 v1).
+           { constructor; auto. apply mono_eq; auto. rewrite O2. eapply bp_sub_refl. apply (i_frames _ _ _ I). }
+           eapply pres_trans; [exact P1|]. eapply (IH rest); eauto. { cbn [lsize isize] in Hn. lia. } left. exact O6.
   - (* block *)
     rewrite flatten_block in Hc, Hl.
     destruct (compile_cons _ _ _ _ _ _ _ Hc) as (va & sa & Ev & Eh & Hc').
@@ -256,7 +272,27 @@ Proof.
     + pose proof (p_bp _ _ _ _ Pb) as Hb. rewrite A2 in Hb. destruct (bp_sub_cons_inv _ _ _ Hb) as (j' & b'' & Eb' & Hb').
       rewrite E1 in Eb'. inversion Eb'; subst. eapply bp_sub_trans; [exact Hb'|]. apply (p_bp _ _ _ _ Pr).
   - (* loop *)
-    unfold flatten in Hl. cbn [flat_map flatten_instr app lvl ctl_ok] in Hl. discriminate.
+    rewrite flatten_loop in Hc, Hl.
+    destruct (compile_cons _ _ _ _ _ _ _ Hc) as (va & sa & Ev & Eh & Hc').
+    rewrite (reach_of_none v Hu) in Eh. destruct (lvl_cons _ _ _ _ _ _ Hl Ev) as [Hk Hl'].
+    destruct bt; [discriminate|]. unfold ctl_ok in Hk. rewrite Hu in Hk. apply Nat.eqb_eq in Hk.
+    destruct (op_loop nl cx s v va sa I Hu Hk Ev Eh) as (A1 & A2 & (A3 & A4 & A5 & A6) & A7 & Ia & Hua).
+    destruct (compile_app_inv _ _ _ _ _ _ _ Hc') as (vb & sb & Hcb & Hc'').
+    rewrite (lvl_app nl cx _ _ _ _ _ _ Hcb) in Hl'. apply andb_true_iff in Hl'. destruct Hl' as [Hlb Hl''].
+    cbn [lsize] in Hn. rewrite isize_loop in Hn.
+    assert (Pb : pres nl sa sb vb) by (eapply (IH body); eauto; [lia|left; exact A7]).
+    destruct (compile_cons _ _ _ _ _ _ _ Hc'') as (vc & sc & Evc & Ehc & Hcr).
+    destruct (lvl_cons _ _ _ _ _ _ Hl'' Evc) as [_ Hlr].
+    destruct (op_end nl cx sb vb vc sc (p_inv _ _ _ _ Pb) Evc Ehc) as (locs & bp' & E1 & E2 & E3 & E4 & E5 & E6 & E7 & E8 & X3 & Rs & Ic & Huc).
+    assert (Pr : pres nl sc s' v') by (eapply (IH rest); eauto; [lia|left; exact E7]).
+    constructor.
+    + eapply ext_trans; [|eapply ext_trans; [apply (p_ext _ _ _ _ Pb)|eapply ext_trans; [exact X3|apply (p_ext _ _ _ _ Pr)]]].
+      eapply (ext_same_locs s sa []); [rewrite app_nil_r; exact A1|rewrite A2; reflexivity].
+    + eapply mono_trans; [apply (mono_eq s sa); auto|]. eapply mono_trans; [apply (p_mono _ _ _ _ Pb)|].
+      eapply mono_trans; [apply (mono_eq sb sc); auto|apply (p_mono _ _ _ _ Pr)].
+    + apply (p_inv _ _ _ _ Pr).
+    + pose proof (p_bp _ _ _ _ Pb) as Hb. rewrite A2 in Hb. destruct (bp_sub_cons_inv _ _ _ Hb) as (j' & b'' & Eb' & Hb').
+      rewrite E1 in Eb'. inversion Eb'; subst. eapply bp_sub_trans; [exact Hb'|]. apply (p_bp _ _ _ _ Pr).
   - (* if *)
     destruct els as [|e els].
     + rewrite flatten_if1 in Hc, Hl.
